@@ -576,6 +576,9 @@ func runFaults(r *vs.Rand, i int, seed uint64, out *vs.Out) {
 	cfg.Customize = false
 	cfg.Related = nil
 	foreign := false
+	// the faulty run ended with the parent pending deletion and no longer carrying the controller's finalizer: from then on
+	// nothing is reconciled for it (the dying-parent guard of C10), whatever the fault left behind
+	released := false
 	run := func(fault bool) ([]roundInfo, []interface{}) {
 		rr := vs.CaseRand(seed+7777, i)
 		sc := buildScenario(rr, cfg)
@@ -658,12 +661,26 @@ func runFaults(r *vs.Rand, i int, seed uint64, out *vs.Out) {
 			sc.w.sim.Faults = nil
 			rounds = append(rounds, ri)
 		}
+		if fault {
+			if p := sc.w.sim.GetObj(parentGroup, cfg.parentResource(), nsOfKey(sc.key), "p1"); p != nil {
+				md := p["metadata"].(map[string]interface{})
+				has := false
+				fs, _ := md["finalizers"].([]interface{})
+				for _, f := range fs {
+					if f == "metacontroller.io/compositecontroller-"+cfg.Name {
+						has = true
+					}
+				}
+				_, del := md["deletionTimestamp"]
+				released = del && !has
+			}
+		}
 		return rounds, project(sc.w.sim.Snapshot())
 	}
 	fr, fstore := run(true)
 	tr, tstore := run(false)
 	out.Line(vs.M{"kind": "rounds", "mode": "faults", "case": i, "seed": seed, "cfg": cfg, "rounds": fr, "twinRounds": tr,
-		"finalEqualsTwin": vs.MustJSON(fstore) == vs.MustJSON(tstore), "finalDigest": digest(fstore), "twinDigest": digest(tstore), "foreign": foreign})
+		"finalEqualsTwin": vs.MustJSON(fstore) == vs.MustJSON(tstore), "finalDigest": digest(fstore), "twinDigest": digest(tstore), "foreign": foreign, "released": released})
 }
 
 var jsonTypes = []interface{}{nil, true, int64(0), int64(-3), int64(1) << 62, "str", []interface{}{}, []interface{}{nil}, map[string]interface{}{}, []interface{}{int64(1)}, map[string]interface{}{"x": int64(1)}}
